@@ -368,8 +368,43 @@ class _CT(object):
         return ArrHandle(self._arr)
 
 
+class _SymDType(object):
+    """what SArr.dtype reports: the array stands for a float64 array (the code under analysis asserts `x.dtype == np.float64`) but is
+    stored as objects, so it compares equal to both"""
+    kind = "O"
+    itemsize = 8
+    name = "float64"
+    char = "d"
+    _EQ = None
+
+    def __eq__(self, other):
+        if isinstance(other, _SymDType):
+            return True
+        try:
+            return np.dtype(other) in (np.dtype(object), np.dtype(np.float64))
+        except TypeError:
+            return False
+
+    def __ne__(self, other):
+        return not self.__eq__(other)
+
+    def __hash__(self):
+        return hash("symdtype")
+
+    def __repr__(self):
+        return "dtype('float64' as symbolic objects)"
+
+
+SYM_DTYPE = _SymDType()
+
+
 class SArr(np.ndarray):
     """object ndarray whose .astype(float) does not force concretisation"""
+
+    @property
+    def dtype(self):
+        d = np.ndarray.dtype.__get__(self)
+        return SYM_DTYPE if d == np.dtype(object) else d
 
     @property
     def ctypes(self):
@@ -378,6 +413,8 @@ class SArr(np.ndarray):
         return np.ndarray.ctypes.__get__(self)
 
     def astype(self, dtype, *a, **k):
+        if isinstance(dtype, _SymDType):
+            return self.copy()
         try:
             kind = np.dtype(dtype).kind
         except TypeError:
